@@ -70,12 +70,12 @@ Fixpoint unescape (plus : bool) (s : str) : option str :=
 
 (* the raw path the client builds (Path.StringBuilder): literal directories as
    they are, values through PathEscape *)
-Inductive pseg := PLit (l : str) | PVal (v : str).
+Inductive pseg := WLit (l : str) | WVal (v : str).
 
 Definition raw_path (bp : str) (segs : list pseg) : str :=
-  bp ++ flat_map (fun s => slash :: match s with PLit l => l | PVal v => path_escape v end) segs.
+  bp ++ flat_map (fun s => slash :: match s with WLit l => l | WVal v => path_escape v end) segs.
 
-Definition seg_text (s : pseg) : str := match s with PLit l => l | PVal v => v end.
+Definition seg_text (s : pseg) : str := match s with WLit l => l | WVal v => v end.
 
 (* url.Values.Encode over pairs already in its (key-sorted) order *)
 Fixpoint encode_query (ps : list (str * str)) : str :=
